@@ -46,9 +46,10 @@ const (
 	FCtorPanic
 	FCtorNil
 	FCloseErr
+	FBuildCancel // the context given to BuildWithContext is cancelled when the N-th constructor invocation of the Build is entered
 )
 
-var faultNames = []string{"ctor-error", "ctor-panic", "ctor-nil", "close-error"}
+var faultNames = []string{"ctor-error", "ctor-panic", "ctor-nil", "close-error", "build-cancel"}
 
 type Fault struct {
 	Kind      int
@@ -80,6 +81,9 @@ func (f *Fault) returned() error {
 }
 
 func (f *Fault) String() string {
+	if f.Kind == FBuildCancel {
+		return fmt.Sprintf("build-cancel when constructor invocation #%d of the Build is entered", f.N)
+	}
 	return fmt.Sprintf("%s r%d #%d", faultNames[f.Kind], f.Reg, f.N)
 }
 
@@ -301,6 +305,7 @@ type H struct {
 	nHandles  atomic.Int32
 	built     atomic.Int32 // 0 no, 1 ok, 2 failed
 	buildErr  error
+	buildCtx  *simContext // context given to BuildWithContext when the case carries a build-cancel fault
 	prov      godi.Provider
 	rootScope godi.Scope // what the provider hands out as Scope at provider level (after Build)
 	coll      godi.Collection
@@ -406,7 +411,23 @@ func (h *H) onClose(i *Inst) error {
 	return nil
 }
 
+// maybeCancelBuild fires a build-cancel fault: the N-th constructor invocation of
+// the Build has just been entered.
+//
 //go:norace
+//go:norace
+func (h *H) maybeCancelBuild(inv *Invocation) {
+	if h.buildCtx == nil || h.built.Load() != 0 {
+		return
+	}
+	for _, f := range h.faults {
+		if f.Kind == FBuildCancel && f.Fired == 0 && f.N == inv.ID {
+			f.Fired++
+			h.buildCtx.Cancel()
+		}
+	}
+}
+
 func (h *H) faultFor(kind0, kind1, reg, n int) *Fault {
 	for _, f := range h.faults {
 		if f.Kind >= kind0 && f.Kind <= kind1 && f.Reg == reg && f.N == n {
@@ -637,6 +658,7 @@ func (h *H) ctorBody(r *Reg, ft reflect.Type, args []reflect.Value) []reflect.Va
 		inv.Op = h.curOp[t.ID]
 	}
 	h.addInv(inv)
+	h.maybeCancelBuild(inv)
 	inv.Args = h.recArgs(r, args)
 	inv.EnterSeq = h.event(EvCtorEnter, inv.ID, -1)
 	simrt.Yield(siteCtorEnter)
@@ -740,6 +762,7 @@ func (h *H) enterInv(r *Reg) *Invocation {
 		inv.Op = h.curOp[t.ID]
 	}
 	h.addInv(inv)
+	h.maybeCancelBuild(inv)
 	inv.EnterSeq = h.event(EvCtorEnter, inv.ID, -1)
 	simrt.Yield(siteCtorEnter)
 	return inv
